@@ -7,6 +7,7 @@ import (
 	"strings"
 
 	"google.golang.org/protobuf/encoding/protowire"
+	"google.golang.org/protobuf/internal/encoding/messageset"
 	"google.golang.org/protobuf/internal/verifh/core"
 	"google.golang.org/protobuf/proto"
 	"google.golang.org/protobuf/reflect/protoreflect"
@@ -267,7 +268,11 @@ func randUnknown(r *rand.Rand, md protoreflect.MessageDescriptor) []byte {
 		if known[num] || (num >= 19000 && num <= 19999) {
 			continue
 		}
-		switch r.IntN(5) {
+		kindOfRecord := r.IntN(5)
+		if messageset.IsMessageSet(md) {
+			kindOfRecord = 3 // a MessageSet can only carry unknown items, i.e. length-delimited records
+		}
+		switch kindOfRecord {
 		case 0:
 			b = protowire.AppendTag(b, num, protowire.VarintType)
 			b = protowire.AppendVarint(b, randU64(r))
